@@ -451,6 +451,23 @@ func (g gen) random(stream string, bigOK bool) tcase {
 		limit = 1 + g.intn(8)
 	}
 	need := 1 + g.intn(40)
+	if (s == strategy.Each || s == strategy.Fill) && g.intn(10) < 7 {
+		need = 1 + g.intn(7) // per-node amounts: keep most tables feasible
+	}
+	if s == strategy.Auto && limit > 0 && g.intn(10) < 6 {
+		// a limit that binds on some nodes only
+		maxc := 0
+		for _, x := range infos {
+			if x.Count > maxc {
+				maxc = x.Count
+			}
+		}
+		limit = maxc + g.intn(4)
+		if limit == 0 {
+			limit = 1
+		}
+		need = 1 + g.intn(12)
+	}
 	if stream == "boundary" {
 		need = g.boundaryNeed(s, limit, infos)
 	}
